@@ -92,7 +92,77 @@ func c13BusyBody(obs *c13BusyObs, limit int, before int) func() {
 	}
 }
 
+// c13Compliant: a client that never has more than the advertised Receive Maximum (1)
+// unacknowledged publishes outstanding - it waits for every PUBACK / PUBCOMP before the
+// next PUBLISH - is never disconnected, whatever the interleaving of the broker's read
+// loop, handler and write loop.
+func c13CompliantBody(obs *c13BusyObs, qos byte) func() {
+	return func() {
+		*obs = c13BusyObs{}
+		cfg := harness.DefaultConfig()
+		cfg.MQTT.ReceiveMax = 1
+		w := harness.NewWorld(cfg, server.Hooks{})
+		if w.InitErr != nil {
+			obs.problems = append(obs.problems, [3]string{"init", "failed", w.InitErr.Error()})
+			return
+		}
+		x := w.Dial("X")
+		if ack := x.Connect(harness.ConnectOpts{ClientID: "x", Clean: true, Version: refmqtt.V5}); ack == nil || ack.Code != 0 {
+			obs.problems = append(obs.problems, [3]string{"init", "connect-refused", fmt.Sprint(ack)})
+			return
+		}
+		done := 0
+		vsched.Go("client", func() {
+			for i := 1; i <= 3; i++ {
+				x.Send(&refmqtt.Packet{Type: refmqtt.PUBLISH, Topic: "t", QoS: qos, PacketID: uint16(i), Payload: []byte("m")})
+				want := byte(refmqtt.PUBACK)
+				if qos == 2 {
+					want = refmqtt.PUBREC
+				}
+				vsched.WaitUntil("client-waits-for-ack", func() bool { return stampOf(x, want, uint16(i)) != 0 || x.ClosedByBroker() })
+				if x.ClosedByBroker() {
+					return
+				}
+				if qos == 2 {
+					x.Send(&refmqtt.Packet{Type: refmqtt.PUBREL, PacketID: uint16(i)})
+					vsched.WaitUntil("client-waits-for-pubcomp", func() bool { return stampOf(x, refmqtt.PUBCOMP, uint16(i)) != 0 || x.ClosedByBroker() })
+					if x.ClosedByBroker() {
+						return
+					}
+				}
+				done++
+			}
+		})
+		vsched.Settle()
+		x.Pump()
+		code := byte(0)
+		for _, r := range x.Inbox {
+			if r.P != nil && r.P.Type == refmqtt.DISCONNECT {
+				code = r.P.Code
+			}
+		}
+		if x.ClosedByBroker() || done != 3 {
+			obs.problems = append(obs.problems, [3]string{"inbound-receive-maximum", fmt.Sprintf("client-within-receive-maximum-1-disconnected-0x%02x-qos%d", code, qos), fmt.Sprintf("completed %d of 3 flows, closed=%v, errors %v", done, x.ClosedByBroker(), w.Closeds)})
+		}
+		if p := w.SwallowedPanic(); p != "" {
+			obs.problems = append(obs.problems, [3]string{"no-panic", "recovered: " + trimTo(p, 80), p})
+		}
+		obs.outcome = fmt.Sprint(done, x.ClosedByBroker())
+	}
+}
+
 func c13Busy(c *explore.Ctx) {
+	{
+		b := 1
+		if !c.Quick() {
+			b = 2
+		}
+		for _, q := range []byte{1, 2} {
+			obs := &c13BusyObs{}
+			q := q
+			schedScenario(c, fmt.Sprintf("compliant-client-receive-maximum-1-qos%d", q), b, func() [][3]string { return obs.problems }, func() string { return obs.outcome }, c13CompliantBody(obs, q), map[string]any{"qos": q})
+		}
+	}
 	bound := 1
 	if !c.Quick() {
 		bound = 2
